@@ -264,3 +264,104 @@ def replay_activation(fl, FA, method="General", vals=None, seed=0, budget=400, *
         except ValueError:
             pass
     return {"failed": False, "cases": cases, "distinct": len(seen)}
+
+
+# ---------------------------------------------------------------------------------------------------- antecedents (C06)
+def _gen_tree(rng, depth, nvars):
+    if depth == 0 or rng.random() < 0.25:
+        v = rng.randrange(nvars)
+        k = rng.choice([0, 0, 1, 2, 3])
+        hs = [rng.choice(["very", "somewhat", "not", "extremely", "seldom"]) for _ in range(k)]
+        if rng.random() < 0.12:
+            return ("prop", v, hs + ["any"], None)
+        return ("prop", v, hs, rng.choice(["lo", "hi"]))
+    return (rng.choice(["and", "or"]), _gen_tree(rng, depth - 1, nvars), _gen_tree(rng, depth - 1, nvars))
+
+
+def _print_tree(t, style, names, parent=None, right=False, sp=" "):
+    if t[0] == "prop":
+        _, v, hs, term = t
+        txt = " ".join([names[v], "is"] + hs + ([term] if term else []))
+        return f"({sp}{txt}{sp})" if style == "full" else txt
+    prec = {"and": 2, "or": 1}
+    l = _print_tree(t[1], style, names, t[0], False, sp); r = _print_tree(t[2], style, names, t[0], True, sp)
+    txt = f"{l} {t[0]} {r}"
+    need = parent is not None and (prec[t[0]] < prec[parent] or (prec[t[0]] == prec[parent] and right))
+    if style == "full" or need or (style == "mixed" and parent is not None and hash(txt) % 3 == 0):
+        return f"({sp}{txt}{sp})" if sp else f"({txt})"
+    return txt
+
+
+def _eval_tree(fl, t, vars_, conj, disj):
+    """the documented grammar semantics, evaluated on the generated tree itself"""
+    import numpy as np
+    if t[0] == "prop":
+        _, v, hs, term = t
+        var = vars_[v]
+        if not var.enabled:
+            return np.float64(0.0)
+        hmap = {"very": fl.Very, "somewhat": fl.Somewhat, "not": fl.Not, "extremely": fl.Extremely, "seldom": fl.Seldom, "any": fl.Any}
+        if hs and hs[-1] == "any":
+            d = np.float64(1.0); rest = hs[:-1]
+        else:
+            tm = [x for x in var.terms if x.name == term][0]
+            if isinstance(var, fl.OutputVariable):
+                d = np.float64(0.0)
+                first = True
+                for a in var.fuzzy.terms:
+                    if a.term.name == term:
+                        d = np.float64(a.degree) if first else np.float64((var.fuzzy.aggregation or fl.UnboundedSum()).compute(d, a.degree))
+                        first = False
+            else:
+                d = np.float64(tm.membership(var.value))
+            rest = hs
+        for h in reversed(rest):
+            d = np.float64(hmap[h]().hedge(d))
+        return d
+    a, b = _eval_tree(fl, t[1], vars_, conj, disj), _eval_tree(fl, t[2], vars_, conj, disj)
+    return np.float64((conj if t[0] == "and" else disj).compute(a, b))
+
+
+def replay_antecedent(fl, FA, vals=None, depth=3, seed=0, budget=600, **kw):
+    """text -> tree -> value: rules generated from the grammar, loaded by the real parser, evaluated by the real activate_with,
+    compared with the grammar semantics evaluated on the generated tree (non-commutative connectives expose swapped operands)"""
+    import random
+    import numpy as np
+    rng = random.Random(seed)
+    cases, seen = 0, set()
+    conj = fl.NormLambda(lambda a, b: 0.75 * a + 0.25 * b * b)
+    disj = fl.NormLambda(lambda a, b: np.maximum(a, 0.5 * b) + 0.125 * b)
+    pairs = [(conj, disj), (fl.Minimum(), fl.Maximum()), (fl.AlgebraicProduct(), fl.BoundedSum())]
+    for it in range(budget):
+        nvars = rng.choice([1, 2, 3])
+        ins = [fl.InputVariable(name=n, minimum=0.0, maximum=1.0, terms=[fl.Ramp("lo", 1.0, 0.0), fl.Ramp("hi", 0.0, 1.0)]) for n in "ABC"[:nvars - (1 if nvars == 3 else 0)]]
+        outs = [fl.OutputVariable(name="Z", minimum=0.0, maximum=1.0, aggregation=rng.choice([fl.Maximum(), fl.UnboundedSum(), None]), defuzzifier=fl.Centroid(50),
+                                  terms=[fl.Triangle("lo", 0.0, 0.25, 0.5), fl.Triangle("hi", 0.5, 0.75, 1.0)])]
+        vars_ = ins + (outs if nvars == 3 else [])
+        names = [v.name for v in vars_]
+        tree = _gen_tree(rng, rng.randrange(0, depth + 1), len(vars_))
+        style = rng.choice(["min", "full", "mixed"]); sp = rng.choice([" ", ""])
+        text = _print_tree(tree, style, names, sp=sp)
+        w = rng.choice([1.0, 0.5, 0.25, 2.0])
+        cj, dj = rng.choice(pairs)
+        e = fl.Engine(name="w", input_variables=ins, output_variables=outs, rule_blocks=[])
+        for v in ins:
+            v.value = rng.choice([0.0, 0.25, 0.5, 0.75, 1.0, 0.3, float("nan")])
+            v.enabled = rng.random() > 0.1
+        for o in outs:
+            for _ in range(rng.randrange(0, 4)):
+                o.fuzzy.terms.append(fl.Activated(rng.choice(o.terms), rng.choice([0.25, 0.5, 0.75, 1.0]), fl.Minimum()))
+        rule_text = f"if {text} then Z is lo" + (f" with {w}" if w != 1.0 else "")
+        try:
+            r = fl.Rule.create(rule_text, e)
+            got = np.float64(r.activate_with(cj, dj))
+        except Exception as ex:  # noqa
+            return {"failed": True, "expected": "rule loads and evaluates", "observed": f"{type(ex).__name__}: {ex}", "call": rule_text, "cases": cases}
+        exp = np.float64(w) * _eval_tree(fl, tree, vars_, cj, dj)
+        cases += 1
+        seen.add(text)
+        if not (FA.same(got, exp, rel=1e-12, abs_=1e-12) and FA.same(np.float64(r.activation_degree), exp, rel=1e-12, abs_=1e-12)):
+            return {"failed": True, "expected": None if exp != exp else float(exp), "observed": None if got != got else float(got), "cases": cases,
+                    "call": f"Rule('{rule_text}').activate_with({type(cj).__name__}, {type(dj).__name__}) inputs={[(v.name, None if v.value != v.value else float(v.value), v.enabled) for v in ins]} "
+                            f"Z.fuzzy={[(a.term.name, float(a.degree)) for o in outs for a in o.fuzzy.terms]}"}
+    return {"failed": False, "cases": cases, "distinct": len(seen)}
